@@ -33,15 +33,31 @@ class Base2(BaseException):
     pass
 
 
+def _rebuild_keepcause(a, cause):
+    e = KeepCause(a)
+    e.__cause__ = cause
+    return e
+
+
+class KeepCause(Exception):
+    """a class whose own pickling carries an explicit cause along (what tblib's pickling support does for every class)"""
+    def __init__(self, a):
+        super().__init__('keep', a)
+        self.a = a
+
+    def __reduce__(self):
+        return (_rebuild_keepcause, (self.a, self.__cause__ if isinstance(self.__cause__, (KeyError, ValueError)) else None))
+
+
 CLASSES = {'ValueError': ValueError, 'KeyError': KeyError, 'Plain': Plain, 'WithInit': WithInit,
-           'WithReduce': WithReduce, 'Base2': Base2, 'OSError': OSError}
+           'WithReduce': WithReduce, 'Base2': Base2, 'OSError': OSError, 'KeepCause': KeepCause}
 
 
 def make_exc(cname, seed):
     c = CLASSES[cname]
     if cname == 'WithInit':
         return c(seed, 'b%d' % seed)
-    if cname == 'WithReduce':
+    if cname in ('WithReduce', 'KeepCause'):
         return c(seed)
     if cname == 'OSError':
         return c(seed, 'os-msg')
@@ -62,7 +78,7 @@ def gen_case(rng):
     nh = rng.choice([0, 0, 1, 1, 2, 3, 4, 5])
     acts = [rng.choice([None, None, 1, 2, 4]) for _ in range(nh)]
     return {'cls': cname, 'seed': rng.randrange(100), 'origin': origin, 'acts': acts,
-            'chained': rng.random() < 0.2, 'ensemble': rng.random() < 0.12}
+            'chained': rng.random() < (0.7 if cname == 'KeepCause' else 0.2), 'ensemble': rng.random() < 0.12}
 
 
 def transport(re_obj):
